@@ -1,6 +1,10 @@
 #!/bin/sh
 # tryseed.sh <patch.diff> <check ids...> : apply a seeded change to /repo, run the checks, undo.
+# The evidence files of the clean tree are saved and restored: evidence committed in /verif must come from the unchanged tree.
 P=$1; shift
-git -C /repo apply $P || exit 2
+SAVE=$(mktemp -d /tmp/iref-evid.XXXX)
+cp -a /verif/evidence/. $SAVE/ 2>/dev/null
+git -C /repo apply $P || { rm -rf $SAVE; exit 2; }
 for c in "$@"; do (cd /verif && ./check $c 2>&1 | grep -E "violated obligation|^C[0-9]+ \[" | cut -c1-420); done
 git -C /repo checkout -- . ; git -C /repo status --short
+rm -rf /verif/evidence; mkdir -p /verif/evidence; cp -a $SAVE/. /verif/evidence/; rm -rf $SAVE
